@@ -32,6 +32,10 @@ FIXED = [
      _E % ('e1', 'B+', 'C-'), 'O\to1\tA+ B+', 'O\to2\tC+ B- A-', 'U\tu1\to2 C'],
     ['S\tA\t10\t*', 'S\tB\t10\t*', _E % ('e1', 'A+', 'B+'), _E % ('*', 'B-', 'A-'), _E % ('e2', 'A+', 'A+'), _E % ('*', 'B+', 'B-'),
      'O\to1\tA+ B+', 'O\to2\tA+ e1+ B+', 'O\to3\tA+ A+ B+', 'O\to4\tA+ B+ B-', 'U\tu1\te1 e2'],
+    # a segment listed after an edge with the orientation the edge does not give it; an edge listed against its direction
+    ['S\tA\t10\t*', 'S\tB\t10\t*', 'S\tC\t10\t*', _E % ('e1', 'A+', 'B+'), _E % ('e2', 'B+', 'C+'), 'O\to1\tA+ e1+ B-',
+     'O\to2\tA+ e1+ B- C+', 'O\to3\tA+ e1+ B+ e2+ C+', 'O\to4\tA+ e1- B+', 'O\to5\tB- e1- A-', 'O\to6\tB- e1- A+', 'O\to7\te1+ B-',
+     'O\to8\tC- e2- B- e1- A-'],
     # groups given in several lines whose tags are of every datatype: the merged group keeps name, datatype and value
     ['S\tA\t10\t*', 'S\tB\t10\t*', _E % ('e1', 'A+', 'B+'), 'U\tu1\tA\taa:A:c\tjj:J:[1,2,3]\thh:H:0A', 'U\tu1\tB\tbb:B:c,1,2\tff:f:1.5',
      'U\tu1\te1\tzz:Z:k', 'O\to1\tA+\taa:A:c\tjj:J:{"a":1}', 'O\to1\tB+\tii:i:3'],
@@ -440,6 +444,19 @@ def run(ctx, deep, model_ok):
         if r[0] != 'ok':
             if r[1][0] == 'gfapy':
                 ctx.count(case, False)      # the document itself is refused (e.g. conflicting tags): not a group resolution case
+                # ... which is right only if the lines of a group give one of its tags two different values, or an
+                # identifier is carried by lines of two record types
+                doc = SG.Doc(case['lines'])
+                ids = {}
+                for l in case['lines']:
+                    f = l.split('\t')
+                    if f[0] in 'SEGOU' and f[1] != '*':
+                        ids.setdefault(f[1], set()).add(f[0])
+                if r[1][1] == 'NotUniqueError' and not doc.tag_clash and all(len(v) == 1 for v in ids.values()) and \
+                        len([l for l in case['lines'] if l[0] in 'SEG' and l.split('\t')[1] != '*']) == \
+                        len(set(l.split('\t')[1] for l in case['lines'] if l[0] in 'SEG' and l.split('\t')[1] != '*')):
+                    ctx.violation('failing-input', 'a document whose groups give every tag one value is refused with NotUniqueError',
+                                  case, 'accepted', 'NotUniqueError', python=py_of(case))
                 continue
             ctx.violation('failing-input', 'running the case raised %s' % (r[1],), case, python=py_of(case))
             continue
